@@ -195,6 +195,10 @@ func C11(e *Env) {
 	c11Unmarshal(e)
 	ruleE(e, "R11.4")
 	c11Sanitise(e)
+	c02ResolverChain(e, "R02.1")
+	c03ParamRules(e, "R03.4")
+	r.Rule("R02.1", "which grammar applies in which position is wiring: the argument chain recognises every documented form once, the primitive chain (used for parameters) none of the service/tag/value/container forms (shared with C02)", 8)
+	r.Rule("R03.4", "parameter values are resolved by the primitive chain, so a parameter string that merely looks like @service, !tagged, !value or $gontainer is accepted as text; a parameter that does reference a service or tag is rejected (shared with C03)", 4)
 	r.NotCovered = append(r.NotCovered,
 		"the exact wording of each diagnostic and the key it names",
 		"YAML-level errors raised by yaml.v3 itself for wrong node kinds in typed positions (bool, int, maps) — the decoder is trusted",
